@@ -24,6 +24,8 @@ TRUSTED = [
     "impl models hand-transcribed from cencoding.c / speedups.c (C11 trusted base)",
     "Python glue: case generators, exact-size buffers, report classification (AddressSanitizer / runtime error / signal)",
     "covered: the codec routines (C11 lattice). The thrift serialiser (C10) and the list assembler (C15) are checked by their own properties",
+    "translators/dispatch2coq.py + Impl/Dispatch.v (C11 trusted base): the callers' allocation (np.empty(n, dtype)) and the itemsize they pass are "
+    "read off the source by call shape; the observed-call correspondence and the page readers run under ASan are the tie",
 ]
 
 
@@ -41,6 +43,12 @@ def run(ctx):
         ctx.obligation("compiled code corresponds to the .pyx source (DESIGN 4.5)", not diffs,
                        "source and compiled code differ; the property is shown for the compiled code only: %r" % (diffs[:5],))
         C.shadow(sanitize=True)
+        # the callers: the (bit width, selfmade) chains of the page readers regenerated as Gallina; re-proved on it: the generic
+        # decoder is entered only inside the region where its model is proved safe (never width 0, item sizes 1/4, own pages take
+        # the array view).  The decoder clamps to whatever capacity it is handed (C12_safe_partial), so value-level adequacy of
+        # the allocation is C11's obligation; C12_caller_allocation_fits states the exact byte count for adequate leaves.
+        from harness import codec_dispatch as D
+        mode, K.DISPATCH_TAB = D.translate_dispatch(ctx, proofs="GenDispatchSafetyProofs.v")
         ctx.rule = ("the C11 lattice thinned to the boundary points (widths {0,1,3,8,9,16,23,24,25,26,31,32}, delta widths "
                     "{0,1,8,24,28,29,32,33,56,57,63,64}, patterns ones/random, capacities 0 / count-1 / count / count+1 items), every input "
                     "and output buffer an exactly-sized heap allocation, no byte behind the encoded run; trivial = nothing to decode; "
@@ -81,6 +89,12 @@ def roundtrip_cases(ctx):
             o["has_nulls"] = True
         cases.append({"fn": "rt", "spec": spec, "opts": o, "stream": "main"})
     # two crashes reported on the unchanged tree (thrift serialiser, C10's code): kept as a confirmation stream
+    # concurrent well-formed use of ONE handle (threads reading different columns, short switch interval)
+    for k, (scheme, dpv, comp) in enumerate([("simple", 1, None), ("simple", 2, None)] if ctx.quick() else
+                                            [("simple", 1, None), ("simple", 2, None), ("hive", 1, None), ("simple", 1, "GZIP"), ("simple", 2, "GZIP")]):
+        cases.append({"fn": "mt_read", "n": 4000, "per_rg": 100, "rounds": 12 if ctx.quick() else 40, "switch": 1e-5, "scheme": scheme,
+                      "dpv": dpv, "compression": comp, "seed": rng.randrange(1 << 30),
+                      "threads": [["s"], ["i"], ["b"], ["f", "c"], ["s", "j"], ["i"]], "stream": "main"})
     cases.append({"fn": "thrift_numpy_int", "stream": "confirm"})
     cases.append({"fn": "kv_nonascii_big", "n": 400000, "stream": "confirm"})
     return cases
@@ -90,8 +104,14 @@ def roundtrip_collect(cases, scratch, quick):
     worker = os.path.join(os.path.dirname(os.path.abspath(L.__file__)), "codec_rt_worker.py")
     main_cases = [c for c in cases if c["stream"] == "main"]
     conf_cases = [c for c in cases if c["stream"] == "confirm"]
+    mt_cases = [c for c in main_cases if c["fn"] == "mt_read"]
+    main_cases = [c for c in main_cases if c["fn"] != "mt_read"]
     real = L.run_real(main_cases, os.path.join(scratch, "rt"), sanitize=True, nproc=4 if quick else 8,
                       max_crashes=10, worker=worker, chunk=30, timeout=600)
+    # the multi-threaded reads: one worker process each (a crash there must not take other cases with it)
+    real += L.run_real(mt_cases, os.path.join(scratch, "rtm"), sanitize=True, nproc=len(mt_cases) or 1, max_crashes=3, worker=worker,
+                       timeout=300, chunk=1)
+    main_cases = main_cases + mt_cases
     real += L.run_real(conf_cases, os.path.join(scratch, "rtc"), sanitize=True, nproc=2, max_crashes=10, worker=worker,
                        timeout=300, chunk=1)
     return main_cases + conf_cases, real
@@ -103,6 +123,8 @@ def roundtrip_judge(ctx, cases, real):
             ctx.count("round trips not run (worker crashed too often)", 1)
             continue
         short = {"stream": "roundtrip", "fn": c["fn"], "spec": c.get("spec"), "opts": c.get("opts"), "n": c.get("n")}
+        if c["fn"] == "mt_read":
+            short = dict({k: v for k, v in c.items() if k != "stream"}, stream="roundtrip")
         ctx.case(short, trivial=c["fn"] == "rt" and c["spec"]["n"] == 0)
         ctx.count("round-trip stream outcome", r[1] if r[0] in ("ok", "exc") else r[0])
         if c["fn"] == "rt":
@@ -111,8 +133,13 @@ def roundtrip_judge(ctx, cases, real):
         if r[0] in ("crash", "asan", "ubsan", "missing"):
             kinds = sorted({col["kind"] for col in c["spec"]["cols"]}) if c["fn"] == "rt" else []
             ctx.fail({"component": "roundtrip" if c["fn"] == "rt" else c["fn"], "stream": c["stream"], "kind": r[0],
-                      "dpv": (c.get("opts") or {}).get("dpv"), "where": _where(r[2] if len(r) > 2 else "")},
+                      "dpv": (c.get("opts") or c).get("dpv"), "where": _where(r[2] if len(r) > 2 else "")},
                      short, "writer/reader under the sanitised build: %r; column kinds %s" % (r[:3], kinds))
+        elif c["fn"] == "mt_read" and (r[0] == "exc" or (r[0] == "ok" and r[1] != "clean")):
+            # no memory error was SEEN, but a reader thread got an exception / other data from a well-formed file: the
+            # native decoders were handed bytes that are not the page the metadata names
+            ctx.fail({"component": "mt_read", "stream": c["stream"], "kind": "bad-read", "dpv": c.get("dpv"), "where": ""}, short,
+                     "threads reading different columns of a well-formed file through one handle (under the sanitised build): %r" % (r[:3],))
 
 
 def _where(report):
@@ -172,12 +199,12 @@ def replay_roundtrip(case):
     import shutil
     tmp = tempfile.mkdtemp(prefix="verif-C12-replay-", dir="/tmp")
     try:
-        c = {k: v for k, v in case.items() if k in ("fn", "spec", "opts", "n")}
+        c = {k: v for k, v in case.items() if k != "stream"}
         worker = os.path.join(os.path.dirname(os.path.abspath(L.__file__)), "codec_rt_worker.py")
         r = L.run_real([c], tmp, sanitize=True, nproc=1, worker=worker, timeout=600)[0]
         print("case:", json.dumps(c)[:1500])
         print("real code under ASan+UBSan:", json.dumps(r)[:800])
-        bad = r[0] in ("crash", "asan", "ubsan", "missing")
+        bad = r[0] in ("crash", "asan", "ubsan", "missing") or (c["fn"] == "mt_read" and (r[0] == "exc" or r[1] != "clean"))
         print("=> property %s on this case" % ("FAILS" if bad else "holds"))
         return 1 if bad else 0
     finally:
